@@ -1,4 +1,6 @@
 """Queries over the resolved-AST facts produced by tools/rxast.cc."""
+import json
+import os
 import re
 
 from core import AnalysisBroken
@@ -15,7 +17,7 @@ def children(n):
     """Direct child nodes in evaluation/source order."""
     out = []
     for key, v in n.items():
-        if key in ('ty', 'k', 'ln', 'f', 'v'):
+        if key in ('ty', 'k', 'ln', 'v'):
             continue
         if is_node(v):
             out.append(v)
@@ -208,6 +210,66 @@ def fold(n):
 
 
 # ---------------------------------------------------------------------------------------------
+_PINNED = [None]
+PINNED_FILE = os.path.join(os.path.dirname(os.path.dirname(os.path.abspath(__file__))), 'support', 'pinned_names.json')
+
+
+def pinned_names():
+    """(function key) -> names of its parameters and locals on the pinned tree, in declaration order (support/pinned_names.json, generated by
+    tools/gen_pinned_names.py).  Local identifiers carry no meaning; every function whose number of parameters / locals is unchanged is
+    alpha-renamed to the reference names when its facts are loaded, so that no rule depends on what a local happens to be called."""
+    if _PINNED[0] is None:
+        try:
+            with open(PINNED_FILE) as fh:
+                _PINNED[0] = json.load(fh)
+        except (OSError, ValueError):
+            _PINNED[0] = {}
+    return _PINNED[0]
+
+
+def local_decl_list(f):
+    out = [('p', p) for p in f.get('params', [])]
+    if f.get('body') is not None:
+        for x in walk(f['body']):
+            if x['k'] == 'Decl':
+                for d in x['d']:
+                    out.append(('d', d))
+    return out
+
+
+def fkey(f):
+    file = f.get('file', '')
+    i = file.find('/src/')
+    return '%s|%s|%s' % (f['q'], f.get('sig', ''), file[i + 1:] if i >= 0 else os.path.basename(file))
+
+
+def canonicalise_locals(f, pinned, config=''):
+    if f.get('_canon') or f.get('body') is None:
+        return
+    f['_canon'] = True
+    ent = pinned.get(config + '|' + fkey(f)) or pinned.get(fkey(f))
+    if not ent:
+        return
+    decls = local_decl_list(f)
+    if len(decls) != len(ent) or [k for k, _ in decls] != [e[0] for e in ent]:
+        return        # the function changed shape: keep its own names (rules that need a role find it structurally or give up with exit 2)
+    ren = {}
+    for (kind, d), (k2, name) in zip(decls, ent):
+        if d.get('name') != name and d.get('id') is not None:
+            ren[d['id']] = name
+            d['name'] = name
+    if not ren:
+        return
+    for x in walk(f['body']):
+        if x['k'] == 'Ref' and x.get('id') in ren:
+            x['n'] = ren[x['id']]
+    for i in f.get('inits', []) or []:
+        if is_node(i.get('e')):
+            for x in walk(i['e']):
+                if x['k'] == 'Ref' and x.get('id') in ren:
+                    x['n'] = ren[x['id']]
+
+
 class Facts:
     """Index over the facts of several units of one configuration."""
 
@@ -228,10 +290,12 @@ class Facts:
         self._records = {}
         self._enums = {}
         self._macros = {}
+        pinned = pinned_names()
         for rel in self.units:
             u = self.unit(rel)
             for f in u['functions']:
                 f['_unit'] = rel
+                canonicalise_locals(f, pinned, self.config)
                 # prefer the definition in the unit whose name matches the file (stable choice)
                 self._funcs.setdefault(f['q'], []).append(f)
             for g in u['globals']:
